@@ -1,13 +1,21 @@
 #!/bin/bash
 # usage: seedmatrix.sh <seed-dir-name>... ; for each seeded change: apply to /repo, run ALL registered quick checks, undo.
 # writes /verif/seeded/<name>/matrix.txt : one line per check  "<id> exit=<rc> <first VIOLATION line or OK>"
+# SEED_WT=<dir>: instead of patching /repo itself, use a scratch worktree <dir> of /repo's HEAD and point every tool at it
+# through VERIF_REPO (used while other jobs read /repo); the worktree is removed at the end.
 set -u
-cd /repo || exit 2
+R=/repo
+if [ -n "${SEED_WT:-}" ]; then
+  R=$SEED_WT
+  [ -d "$R" ] || git -C /repo worktree add -q --detach "$R" HEAD || exit 2
+  export VERIF_REPO=$R
+fi
+cd $R || exit 2
 for name in "$@"; do
   d=/verif/seeded/$name
   if ! git diff --quiet; then echo "/repo is dirty"; exit 2; fi
   git apply "$d/patch.diff" || { echo "patch $name does not apply"; continue; }
-  [ "${CHECKS:-}" = "own" ] && [ -z "${MATRIX_OUT:-}" ] && [ -s $d/matrix.txt ] && [ "$(wc -l < $d/matrix.txt)" -ge 20 ] && { git -C /repo checkout -- .; echo "skip $name (full matrix present)"; continue; }
+  [ "${CHECKS:-}" = "own" ] && [ -z "${MATRIX_OUT:-}" ] && [ -s $d/matrix.txt ] && [ "$(wc -l < $d/matrix.txt)" -ge 20 ] && { git -C $R checkout -- .; echo "skip $name (full matrix present)"; continue; }
   : > $d/${MATRIX_OUT:-matrix.txt}
   own=$(python3 -c "import json;print(json.load(open('$d/meta.json'))['breaks_property'])" 2>/dev/null || echo "${name%%-*}")
   if [ "${CHECKS:-}" = "own" ]; then list="$own"; else list="${CHECKS:-C01 C02 C03 C04 C05 C06 C07 C08 C09 C10 C11 C12 C13 C14 C15 C16 C17 C18 C19 C20}"; fi
@@ -16,9 +24,10 @@ for name in "$@"; do
     line=$(echo "$out" | grep -E -A1 "^(VIOLATION|OK)" | head -2 | tr '\n' ' ' | cut -c1-500)
     echo "$c exit=$rc $line" >> $d/${MATRIX_OUT:-matrix.txt}
   done
-  git -C /repo checkout -- .
+  git -C $R checkout -- .
   (cd /verif && git checkout -- evidence 2>/dev/null; true)
   echo "done $name"
 done
+[ -n "${SEED_WT:-}" ] && { cd /; git -C /repo worktree remove --force "$R"; unset VERIF_REPO; }
 (cd /verif && ./check --setup >/dev/null 2>&1)   # leave coq/Gen regenerated from the restored /repo
 echo MATRIXDONE
